@@ -42,3 +42,55 @@ Qed.
 Theorem x_parblock_copy_ok_iff : forall walk disp,
   x_parblock_copy_result walk disp = None <-> walk = None /\ disp = None.
 Proof. intros [e|] [d|]; unfold x_parblock_copy_result; split; try discriminate; try (intros [H1 H2]; discriminate); auto. Qed.
+
+(* ------------------------------------------------------------------ *)
+(* what a failed operation does in the worker loops                     *)
+(* ------------------------------------------------------------------ *)
+(* per operation kind (0 Copy, 1 Link, 2 Special): 1 = an Error update is sent, 2 = the worker returns the error.
+   Copy and Link do both; a special file only returns its error (its sole report is the worker's result). *)
+Theorem x_error_routes_ok :
+  x_parfile_error_routes = [(0, [1; 2]); (1, [1; 2]); (2, [2])] /\
+  x_parblock_error_routes = [(0, [1; 2]); (1, [1; 2]); (2, [2])].
+Proof. split; reflexivity. Qed.
+
+(* every kind of operation, in both worker loops, returns its failure from the worker (route 2), and nothing else
+   happens on a failure path (no 99: no skip, no retry, no swallowed error) *)
+Theorem x_every_failure_is_returned :
+  forall routes, In routes [x_parfile_error_routes; x_parblock_error_routes] ->
+  map fst routes = [0; 1; 2] /\ forall k r, In (k, r) routes -> In 2 r /\ ~ In 99 r.
+Proof.
+  intros routes [<-|[<-|[]]]; (split; [reflexivity|]);
+    intros k r Hin; cbn in Hin; repeat (destruct Hin as [Hin|Hin]; [injection Hin as <- <-; split; [cbn; tauto|cbn; intros H; repeat (destruct H as [H|H]; try discriminate H); exact H]|]); destruct Hin.
+Qed.
+
+(* ------------------------------------------------------------------ *)
+(* main(): the exit status from the update stream and the driver result *)
+(* ------------------------------------------------------------------ *)
+Definition has_error (stats : list x_update) : bool :=
+  existsb (fun u => match u with XuError _ => true | _ => false end) stats.
+
+Theorem x_main_collect_ok_iff : forall stats handle,
+  x_main_collect stats handle = None <-> has_error stats = false /\ handle = None.
+Proof.
+  induction stats as [|u stats IH]; intros handle; cbn [x_main_collect has_error existsb].
+  - destruct handle; split; try discriminate; try (intros [_ H]; discriminate); auto.
+  - destruct u as [v|v|e]; cbn [orb]; try apply IH.
+    split; [discriminate|intros [H _]; discriminate].
+Qed.
+
+(* end to end, parfile: if ANY worker returned an error the process exit status is non-zero, whatever the updates *)
+Corollary x_parfile_worker_error_reaches_exit : forall stats walk ws1 e ws2,
+  x_main_collect stats (x_parfile_copy_result walk (ws1 ++ Some e :: ws2)) <> None.
+Proof.
+  intros stats walk ws1 e ws2 H. apply x_main_collect_ok_iff in H. destruct H as [_ H].
+  now apply x_parfile_copy_any_worker_error in H.
+Qed.
+
+(* end to end, both drivers: an Error update anywhere in the stream makes the exit status non-zero, whatever the driver
+   thread returns (this is the only report of a failed BLOCK JOB of parblock, whose pool threads return nothing) *)
+Corollary x_error_update_reaches_exit : forall s1 e s2 handle,
+  x_main_collect (s1 ++ XuError e :: s2) handle <> None.
+Proof.
+  intros s1 e s2 handle H. apply x_main_collect_ok_iff in H. destruct H as [H _].
+  unfold has_error in H. rewrite existsb_app in H. cbn in H. now rewrite Bool.orb_true_r in H.
+Qed.
